@@ -40,7 +40,7 @@ def r1_states(ctx, F):
     fs = b.calls_to('Model::format_step')
     acts = b.calls_to('Model::actions')
     pushes = [c for c in b.calls_to('Vec::push') if 'StateView' in (c.targs[0] if c.targs else '')]
-    if len(ns) != 1 or len(fs) != 1 or len(acts) != 3 or len(pushes) < 3:
+    if len(ns) != 1 or len(fs) != 1 or len(acts) != 3 or len(pushes) < 1:
         raise AnchorMissing('states(): next_state(%d) format_step(%d) actions(%d) pushes(%d)' %
                             (len(ns), len(fs), len(acts), len(pushes)))
     last = V('call', fin[0].bb, ('as Some', '.0'))
@@ -57,7 +57,7 @@ def r1_states(ctx, F):
     it_some = b.branch(head, 'Some')
     in_loop = [p for p in pushes if p.bb in b.reach([e[1] for e in it_some], cut_blocks=[head.bb])]
     r = b.reach([e[1] for e in it_some], cut_blocks=[p.bb for p in in_loop])
-    ctx.check(len(in_loop) >= 2 and head.bb not in r and not any(x in r for x in b.returns), rule,
+    ctx.check(len(in_loop) >= 1 and head.bb not in r and not any(x in r for x in b.returns), rule,
               'one-view-per-action', b,
               good='every enumerated action yields a StateView (also when the action is ignored)',
               bad='explorer::states: an enumerated action can be skipped without a StateView being pushed: '
@@ -74,8 +74,24 @@ def r1_states(ctx, F):
     nsome = b.branch(ns[0], 'Some')
     nnone = b.branch(ns[0], 'None')
     ok_none = ok_some = False
+    from taint import origin_vals
+    sv_adt = [a_ for a_ in F.adts.values() if a_['path'].endswith('explorer::StateView')]
+    st_idx = None
+    if sv_adt:
+        for fi, fld in enumerate(sv_adt[0]['variants'][0]['fields']):
+            if fld['name'] == 'state':
+                st_idx = fi
     for p in in_loop:
         v = b.val(p.args[1])
+        if st_idx is not None and p.args[1].get('k') in ('copy', 'move'):
+            # one view built after an `if`: its `state` is None on the ignored path and Some(successor) otherwise
+            kinds = origin_vals(b, p.args[1], extra=[{'f': st_idx}])
+            for k_ in kinds:
+                if k_.kind == 'agg' and k_.key[2] == 'None':
+                    ok_none = True
+                elif k_.kind == 'agg' and k_.key[2] == 'Some' and k_.key[3] and noref(k_.key[3][0]).kind == 'call' and \
+                        noref(k_.key[3][0]).key == ns[0].bb:
+                    ok_some = True
         if v.kind != 'agg':
             continue
         fields = dict(zip(['action', 'outcome', 'state', 'properties', 'svg'], v.key[3]))
@@ -105,12 +121,16 @@ def r1_states(ctx, F):
     errs = [i for (i, si, st) in b.assigns(lambda st: st['lhs']['l'] == 0 and not st['lhs']['p'] and
                                             st['rv']['k'] == 'agg' and st['rv'].get('variant') == 'Err')]
     r = b.reach([e[1] for e in none], cut_blocks=errs)
-    ctx.check(len(errs) >= 2 and not any(x in r for x in b.returns), rule, 'unknown-path-is-error', b,
+    ctx.check(len(errs) >= 1 and not any(x in r for x in b.returns), rule, 'unknown-path-is-error', b,
               good='a fingerprint sequence that denotes no execution returns Err',
               bad='explorer::states: when Path::final_state finds no state the function can still return Ok')
     # handler: Err -> 404
-    hs = [x for x in F.bodies.values() if x.kind == 'Closure' and x.path.startswith('checker::explorer::serve_checker')
-          and x.calls_to('explorer::states')]
+    hs = []
+    for x in F.bodies.values():
+        if x.kind == 'Closure' and x.path.startswith('checker::explorer::serve_checker'):
+            xn = F.norm(x)      # the call may sit in a nested `map(|..| states(..))`
+            if xn.calls_to('explorer::states') and xn.calls_to('Request::respond'):
+                hs.append(xn)
     if len(hs) != 1:
         raise AnchorMissing('serve_checker request handler')
     h = hs[0]
@@ -192,6 +212,21 @@ def r3_path_constructors(ctx, F):
             else:
                 cont = [c for c in b.calls_to('slice::contains', 'Vec::contains')]
                 okc = len(cont) == 1 and noref(b.val(cont[0].args[1])).kind == 'arg'
+                if not okc:
+                    # the same membership test spelled as a search: some element of init_states() == the argument
+                    from common import comparisons
+                    from taint import origins
+                    n = F.norm(b)
+                    for (x_, y_, rel_, te_, fe_, bb_) in comparisons(n):
+                        cc = n.call_at(bb_)
+                        if rel_ != 'eq' or cc is None:
+                            continue
+                        sides = [origins(n, a_) for a_ in cc.args[:2]]
+                        elem = [s_ for s_ in sides if s_ and all(isinstance(o, tuple) and o[0] == 'proj' and
+                                                                 o[1].is_('Iterator::next') for o in s_)]
+                        param = [s_ for s_ in sides if s_ and all(isinstance(o, tuple) and o[0] == 'arg' for o in s_)]
+                        if elem and param and n.calls_to('Model::init_states'):
+                            okc = True
                 ctx.check(okc, rule, 'from_actions-validates-init', b,
                           good='from_actions checks that the given initial state is one of init_states()',
                           bad='Path::from_actions does not validate the initial state by membership')
